@@ -773,6 +773,32 @@ func (g *smtpGen) body() (wire [][]byte, decoded []byte) {
 	case 2:
 		hdrs = append(hdrs, []string{"To: undisclosed-recipients:;", "To: ", "To: list: a@l.example;, b@l.example", "To: =?utf-8?b?w6k=?= <e@to.example>"}[g.r.Intn(4)])
 	}
+	// headers real mail carries and the property never mentions: whatever they say, an acknowledged message is stored.  Message-IDs repeat
+	// (a re-sent message, a mailing-list copy for another recipient), dates lie, trace and list headers come from the client
+	if g.r.Intn(2) == 0 {
+		extra := []string{
+			"Message-ID: " + []string{"<same-1@client.example>", "<same-2@client.example>", fmt.Sprintf("<m%d.%d@client.example>", g.subjN, g.r.Intn(1000))}[g.r.Intn(3)],
+			"Date: " + []string{"Mon, 02 Jan 2006 15:04:05 -0700", "Thu, 01 Jan 1970 00:00:00 +0000", "Fri, 31 Dec 9999 23:59:59 +0000", "not a date", "Tue, 30 Sep 2025 10:00:00 +0200"}[g.r.Intn(5)],
+			"MIME-Version: 1.0", "Content-Type: text/plain; charset=utf-8", "Content-Transfer-Encoding: 8bit", "X-Mailer: verif",
+			"Reply-To: reply@src.example", "Cc: cc@to.example", "Bcc: bcc@to.example", "Return-Path: <forged@src.example>",
+			"Received: from elsewhere (elsewhere [192.0.2.1]) by relay.example; Mon, 02 Jan 2006 15:04:05 -0700",
+			"Precedence: " + []string{"bulk", "list", "junk"}[g.r.Intn(3)], "Auto-Submitted: auto-generated", "X-Spam-Flag: YES", "X-Spam-Status: Yes, score=99",
+			"List-Id: <list.example>", "List-Unsubscribe: <mailto:u@list.example>", "In-Reply-To: <same-1@client.example>", "References: <same-1@client.example> <same-2@client.example>",
+			"X-Priority: 1", "Importance: high", "Sender: sender@src.example", "Resent-Message-ID: <same-1@client.example>", "Content-Length: 3", "Lines: 1",
+		}
+		g.r.Shuffle(len(extra[1:]), func(i, j int) { extra[1+i], extra[1+j] = extra[1+j], extra[1+i] })
+		extra = extra[1:] // the Message-ID is drawn on its own, below
+		k := 1 + g.r.Intn(5)
+		if g.r.Intn(3) == 0 {
+			hdrs = append(extra[:k], hdrs...) // before Subject / From
+		} else {
+			hdrs = append(hdrs, extra[:k]...)
+		}
+	}
+	if g.r.Intn(2) == 0 { // every other message carries a Message-ID, mostly one that comes again within the dialogue
+		id := []string{"<same-1@client.example>", "<same-1@client.example>", "<same-2@client.example>", fmt.Sprintf("<m%d.%d@client.example>", g.subjN, g.r.Intn(1000))}[g.r.Intn(4)]
+		hdrs = append(hdrs, []string{"Message-ID: ", "Message-Id: ", "message-id:"}[g.r.Intn(3)]+id)
+	}
 	if g.r.Intn(25) == 0 {
 		hdrs = []string{"Subject " + subj + " no colon", " continuation without header"}
 	}
